@@ -23,6 +23,8 @@ CONSTANTS CaseSpace,      \* set of [cid, expr, env] records explored by Init
           SwOrSeedTrue,   \* F9: `or` is folded starting from True
           SwAllFailLeaks, \* F19: the counterexample object of a failed all(<generator>) is handed to the enclosing
                           \*      expression instead of the value False
+          SwFStringOpaque, \* F34 (known, not repaired): a formatted string literal is shown as a whole; the names /
+                          \*      attributes / calls it interpolates get no lines of their own
           SwLastOperandTruth, \* F32: the re-evaluator tests the truth value of the last operand of and/or
           SwNoStarred,    \* F21: a starred argument of a call (f(*xs)) cannot be re-computed at all
           SwCompTargetLeaks \* F22: the loop variable of a comprehension that shadows a variable of the condition is
@@ -70,7 +72,7 @@ PyEq(a, b) == IF VNumeric(a) /\ VNumeric(b) THEN a.n = b.n
 
 Arity(k) == CASE k \in {"int", "none", "true", "false", "name"} -> 0
               [] k \in {"not", "neg", "ident", "len", "first", "attr", "isnone", "all_gt", "all_pos", "sum_star", "comp", "typeof", "fstr"} -> 1
-              [] k \in {"add", "floordiv", "and", "or", "lt", "eq", "in", "star_then", "pairlen"} -> 2
+              [] k \in {"add", "floordiv", "and", "or", "lt", "eq", "in", "star_then", "pairlen", "all_nest"} -> 2
               [] k \in {"ifexp", "lt2", "and3", "or3"} -> 3
 
 Expr == case.expr
@@ -164,6 +166,14 @@ Binary(k, a, b) ==
     [] k = "star_then" -> IF a.t # "list" \/ HasNoneElem(IF a.t = "list" THEN a.s ELSE <<>>) \/ ~VNumeric(b) THEN Exc("TypeError")
                           ELSE Ok(VInt(Digits(Append(a.s, b.n), 1, 0)))
     [] k = "pairlen" -> Ok(VInt(2))
+    \* all_nest : all(e > 0 for i, (e, d) in [(0, (<a>, <b>)), (1, (<b>, <a>))])   nested loop targets; the counterexample
+    \*            names every loop variable: s = <<i, class of e, class of d, d.n>> \o d.s, n = e.n
+    [] k = "all_nest" ->
+         IF ~VNumeric(a) THEN Exc("TypeError")
+         ELSE IF ~(a.n > 0) THEN Ok([t |-> "allfail", n |-> a.n, s |-> <<0, ClsOfVal(a), ClsOfVal(b), b.n>> \o b.s])
+         ELSE IF ~VNumeric(b) THEN Exc("TypeError")
+         ELSE IF ~(b.n > 0) THEN Ok([t |-> "allfail", n |-> b.n, s |-> <<1, ClsOfVal(b), ClsOfVal(a), a.n>> \o a.s])
+         ELSE Ok(VBool(TRUE))
 \* Python itself sees a failed quantifier simply as False
 PyView(v) == IF v.t = "allfail" THEN VBool(FALSE) ELSE v
 
@@ -226,7 +236,7 @@ Eval(p) ==
     IF a.st # "ok" THEN [st |-> a.st, v |-> a.v, ev |-> a.ev \cup {p}]
     ELSE LET b == Eval(Child2(p)) IN
          IF b.st # "ok" THEN [st |-> b.st, v |-> b.v, ev |-> a.ev \cup b.ev \cup {p}]
-         ELSE LET r == Binary(k, a.v, b.v) IN [st |-> r.st, v |-> r.v, ev |-> a.ev \cup b.ev \cup {p}]
+         ELSE LET r == Binary(k, a.v, b.v) IN [st |-> r.st, v |-> PyView(r.v), ev |-> a.ev \cup b.ev \cup {p}]
 
 -----------------------------------------------------------------------------
 (* The re-evaluator.  Result: [st, v, tc, val] where st is "ok", "exc"      *)
@@ -266,6 +276,14 @@ Rec(p) ==
          [st |-> b.st, v |-> b.v, tc |-> c.tc \cup b.tc \cup {p},
           val |-> c.val \cup b.val \cup (IF b.st = "ok" THEN {<<p, b.v>>} ELSE {})]
   ELSE IF k = "lt2" THEN RecChain(p)
+  ELSE IF k = "all_nest" THEN
+    \* the quantifier is compiled and executed as a whole with the values the names really have (also None: only the
+    \* visit of the display yields placeholders, and its result is not used); the operands are names
+    LET a == Rec(Child1(p)) b == Rec(Child2(p))
+        r == Binary(k, Env(Expr[Child1(p)].a), Env(Expr[Child2(p)].a))
+    IN IF r.st = "ok" THEN [st |-> "ok", v |-> IF SwAllFailLeaks THEN r.v ELSE PyView(r.v), tc |-> a.tc \cup b.tc \cup {p},
+                            val |-> a.val \cup b.val \cup {<<p, r.v>>}]
+       ELSE [st |-> "exc", v |-> r.v, tc |-> a.tc \cup b.tc \cup {p}, val |-> a.val \cup b.val]
   ELSE IF k = "star_then" /\ Rec(Child1(p)).st = "ok" /\ Rec(Child1(p)).v.t # "list" THEN
     \* visit_Call unpacks the starred value before it visits the next argument
     [st |-> "exc", v |-> PH, tc |-> Rec(Child1(p)).tc \cup {p}, val |-> Rec(Child1(p)).val]
@@ -275,7 +293,9 @@ Rec(p) ==
     ELSE IF b.st = "exc" THEN [st |-> "exc", v |-> b.v, tc |-> a.tc \cup b.tc \cup {p}, val |-> a.val \cup b.val]
     ELSE IF a.st = "ph" \/ b.st = "ph" THEN [st |-> "ph", v |-> PH, tc |-> a.tc \cup b.tc \cup {p}, val |-> a.val \cup b.val]
     ELSE LET r == Binary(k, a.v, b.v) IN
-         IF r.st = "ok" THEN [st |-> "ok", v |-> r.v, tc |-> a.tc \cup b.tc \cup {p}, val |-> a.val \cup b.val \cup {<<p, r.v>>}]
+         \* (as for the unary quantifiers: the counterexample is recorded, the enclosing expression gets False)
+         IF r.st = "ok" THEN [st |-> "ok", v |-> IF SwAllFailLeaks THEN r.v ELSE PyView(r.v), tc |-> a.tc \cup b.tc \cup {p},
+                              val |-> a.val \cup b.val \cup {<<p, r.v>>}]
          ELSE [st |-> "exc", v |-> r.v, tc |-> a.tc \cup b.tc \cup {p}, val |-> a.val \cup b.val]
 
 \* operands of a boolean operator, in order
@@ -345,13 +365,15 @@ RecChain(p) ==
 -----------------------------------------------------------------------------
 (* What the message shows: names, attributes, calls and subscripts that got *)
 (* a recorded value (icontract/_represent.py).                              *)
-ShownKind(k) == k \in {"name", "ident", "len", "first", "attr", "all_gt", "all_pos", "sum_star", "comp", "typeof", "star_then", "pairlen", "fstr"}
+ShownKind(k) == k \in {"name", "ident", "len", "first", "attr", "all_gt", "all_pos", "sum_star", "comp", "typeof", "star_then", "pairlen", "fstr", "all_nest"}
 PyRes  == Eval(1)
 RecRes == Rec(1)
-Shown  == {pv \in RecRes.val : pv[1] = 0 \/ ShownKind(Expr[pv[1]].k)}
+InsideFstr(q) == \E p \in DOMAIN Expr : Expr[p].k = "fstr" /\ p < q /\ q < EndOf(p)
+Shown  == {pv \in RecRes.val : (pv[1] = 0 \/ ShownKind(Expr[pv[1]].k)) /\ ~(SwFStringOpaque /\ pv[1] # 0 /\ InsideFstr(pv[1]))}
 
 Violated == PyRes.st = "ok" /\ TruthOK(PyRes.v) /\ ~Truthy(PyRes.v)        \* the condition evaluates falsy: a violation is due
-NoneFree == \A i \in DOMAIN case.env : case.env[i].t # "none"
+\* no name USED by the condition is bound to None
+NoneFree == \A p \in DOMAIN Expr : Expr[p].k = "name" => Env(Expr[p].a).t # "none"
 
 \* the value of the node at position q in Python's evaluation (q was evaluated)
 EvalAt(q) == Eval(q).v
@@ -370,6 +392,13 @@ AllCounterexample ==
      LET xs == Eval(Child1(pv[1])).v.s
          i == CHOOSE j \in DOMAIN xs : xs[j] = pv[2].n /\ \A h \in 1..(j - 1) : AllWalk(Expr[pv[1]].k, 0, SubSeq(xs, h, h), 1).v.t # "allfail"
      IN AllWalk(Expr[pv[1]].k, 0, SubSeq(xs, i, i), 1).v.t = "allfail"
+\* ... also when the loop targets are nested: the example is the first pair whose first component is not positive
+AllNestCounterexample ==
+  Violated => \A pv \in Shown : (pv[2].t = "allfail" /\ Expr[pv[1]].k = "all_nest") =>
+     LET a == Eval(Child1(pv[1])).v
+         b == Eval(Child2(pv[1])).v
+     IN \/ pv[2].s[1] = 0 /\ ~(a.n > 0) /\ pv[2].n = a.n
+        \/ pv[2].s[1] = 1 /\ a.n > 0 /\ ~(b.n > 0) /\ pv[2].n = b.n
 \* every name / attribute / call / subscript Python evaluated is shown (claimed when no name is bound to None)
 ShownComplete == (Violated /\ NoneFree) => \A p \in PyRes.ev : ShownKind(Expr[p].k) => \E pv \in Shown : pv[1] = p
 EInit == case \in CaseSpace
